@@ -562,6 +562,18 @@ def late_defect_cases(tier):
     return cases
 
 
+def empty_field_list_cases(tier):
+    """Definitions with an EMPTY field list (marker / heartbeat types): the name is judged exactly as with fields."""
+    names = [s_ for s_ in short_strings(2)]
+    names += [" t/x", "t/x ", "t/x\n", "\tt/x", "\u00a0t/x", "t/x\nstring payload", "t/x\n    string payload\n", "t/x\n\n",
+              "\nt/x", "t/x\r\n", "ok/name", "valid", "a/b/c", "t/x\x0b", "t/x\x0c", "t/x\u2028"] + PAYLOADS[:8]
+    cases = []
+    for n in names:
+        for ch in ("constructor", "stream", "json"):
+            cases.append({"name": n, "fields": [], "channel": ch, "role": "empty-field-list"})
+    return cases
+
+
 def exhaustive_cases(tier):
     cases = []
     for role in ("type-name", "field-name", "field-type"):
@@ -653,6 +665,7 @@ def parts(tier):
         Part("reserved-field-positions", check_definition, cases=reserved_position_cases, exhaustive=True),
         Part("null-field-list", check_definition, cases=null_field_list_cases, exhaustive=True),
         Part("late-defects-in-long-names", check_definition, cases=late_defect_cases, exhaustive=True),
+        Part("empty-field-list", check_definition, cases=empty_field_list_cases, exhaustive=True),
         Part("grouped-record-names", check_definition, cases=grouped_name_cases, exhaustive=True),
         Part("hostile-with-keyword-fields", check_definition, cases=hostile_with_keyword_cases, exhaustive=True),
         Part("generated", check_definition, strategy=generated_case(), examples=(250, 20000)),
